@@ -8,7 +8,7 @@ package main
 // ticket's); key selection arguments and key usages.
 
 import (
-	"fmt"
+	_ "fmt"
 	"strings"
 
 	"golang.org/x/tools/go/ssa"
@@ -191,20 +191,20 @@ func runC01(w *World, c *Check) {
 					continue
 				}
 				v := fa.R.R(RetResults(x.Ret)[0])
-				var need Edge
 				switch v {
 				case "7":
-					need = krb[0]
+					// only when the first component is "krbtgt"
+					path := fa.PathAvoiding([]Edge{krb[0]}, []Exit{x})
+					c.Decide(path == nil, "C01.authusage", FuncKey(fn), "usage-"+v, w.Pos(x.Ret.Pos()),
+						"usage 7 is returned only when the first component is \"krbtgt\"", "returned on another branch: "+fa.DescribePath(path))
 				case "11":
-					need = Edge{krb[0].From, 1 - krb[0].Succ}
+					// never when the first component is "krbtgt" (a name without components is not a krbtgt)
+					path := pathTo(krb[0].To(), nil, nil, map[*ssa.BasicBlock]bool{x.Ret.Block(): true})
+					c.Decide(path == nil, "C01.authusage", FuncKey(fn), "usage-"+v, w.Pos(x.Ret.Pos()),
+						"usage 11 is never returned when the first component is \"krbtgt\"", "reachable from the krbtgt branch: "+fa.DescribePath(path))
 				default:
 					c.Fail("C01.authusage", FuncKey(fn), "usage-value", w.Pos(x.Ret.Pos()), "returned usages are 7 (TGS-REQ PA-TGS-REQ authenticator) and 11 (AP-REQ authenticator)", "returns "+v)
-					continue
 				}
-				path := fa.PathAvoiding([]Edge{need}, []Exit{x})
-				c.Decide(path == nil, "C01.authusage", FuncKey(fn), "usage-"+v, w.Pos(x.Ret.Pos()),
-					fmt.Sprintf("usage %s is returned exactly on the %s branch", v, map[string]string{"7": "krbtgt", "11": "non-krbtgt"}[v]),
-					"returned on the wrong branch: "+fa.DescribePath(path))
 			}
 		}
 	}
